@@ -17,6 +17,7 @@ static Fields gen(Tape &t) {
   fin.kind = t.coin() ? 'O' : 'N';
   fin.i = (int)t.below(64);
   fin.arg = 1 + (int)t.below(63);  // non-zero mask
+  if (t.chance(1, 10)) { static const int wide[] = {64, 128, 1 << 20, (int)0x80000000u, ~63, -1, 64 + 8}; fin.arg = wide[t.below(7)]; }  // bits beyond the documented six
   ops.push_back(fin);
   ops_to_fields(f, ops);
   // in a quarter of the cases the k-th allocation of the final step fails once: a failing make-owner / normalisation
